@@ -29,7 +29,10 @@ use scylla::cluster::metadata::Strategy;
 use scylla::cluster::{ClusterState, Node};
 use scylla::frame::response::result::TableSpec;
 use scylla::routing::Token;
-use scylla::verif_hooks::cluster::{KeyspaceSpec, NodeSpec, cluster_refresh_topology, cluster_refresh_topology_accepting, cluster_state_general};
+use scylla::verif_hooks::cluster::{
+    KeyspaceSpec, NodeSpec, cluster_refresh_topology, cluster_refresh_topology_accepting, cluster_refresh_topology_filtered, cluster_state_filtered,
+    cluster_state_general,
+};
 use scylla::verif_hooks::tablets::{TabletView, VerifTablets, raw_tablet_from_payload};
 use std::sync::Arc;
 use std::collections::HashMap;
@@ -768,6 +771,8 @@ struct CsPeer {
     id: u32,
     dc: Option<String>,
     rack: Option<String>,
+    /// the host filter accepts this peer (`csm` histories: a trailing `*`)
+    accepted: bool,
 }
 
 fn parse_cs_peers(s: &str) -> Option<Vec<CsPeer>> {
@@ -775,21 +780,25 @@ fn parse_cs_peers(s: &str) -> Option<Vec<CsPeer>> {
         return None;
     }
     let mut v: Vec<CsPeer> = Vec::new();
-    for part in s.split(',') {
+    for part0 in s.split(',') {
+        let (part, accepted) = match part0.strip_suffix('*') {
+            Some(x) => (x, true),
+            None => (part0, false),
+        };
         let p = match part.split_once('@') {
-            None => CsPeer { id: part.parse().ok()?, dc: None, rack: None },
+            None => CsPeer { id: part.parse().ok()?, dc: None, rack: None, accepted },
             Some((a, loc)) => {
                 if loc.contains('@') {
                     return None;
                 }
                 let id = a.parse().ok()?;
                 match loc.split_once('/') {
-                    None => CsPeer { id, dc: Some(loc.to_owned()), rack: None },
+                    None => CsPeer { id, dc: Some(loc.to_owned()), rack: None, accepted },
                     Some((d, r)) => {
                         if r.contains('/') {
                             return None;
                         }
-                        CsPeer { id, dc: Some(d.to_owned()), rack: Some(r.to_owned()) }
+                        CsPeer { id, dc: Some(d.to_owned()), rack: Some(r.to_owned()), accepted }
                     }
                 }
             }
@@ -802,23 +811,24 @@ fn parse_cs_peers(s: &str) -> Option<Vec<CsPeer>> {
     Some(v)
 }
 
-/// the schema part of a refresh: is `k0` there, is it tablet-based, which of `t0`/`t1` are its tables / views
+/// one keyspace of the schema part of a refresh: is it there, is it tablet-based, which of `t0`/`t1` are its tables / views
 #[derive(Clone, Debug, PartialEq, Eq)]
-enum CsSchema {
+enum KsCfg {
     Absent,
     NotTablet,
     Tablet(Vec<String>, Vec<String>),
-    /// the fetch of `k0` failed (only as the argument of a refresh; resolved against the previous schema)
+    /// its fetch failed (only as the argument of a refresh; resolved against the previous schema)
     FetchFailed,
 }
 
-fn parse_cs_schema(s: Option<&str>) -> Option<CsSchema> {
-    match s {
-        None => Some(CsSchema::Tablet(vec!["t0".into(), "t1".into()], vec![])),
-        Some("x") => Some(CsSchema::Absent),
-        Some("-") => Some(CsSchema::NotTablet),
-        Some("e") => Some(CsSchema::FetchFailed),
-        Some(cfg) => {
+const CS_KEYSPACES: [&str; 2] = ["k0", "k1"];
+
+fn parse_ks_cfg(cfg: &str) -> Option<KsCfg> {
+    match cfg {
+        "x" => Some(KsCfg::Absent),
+        "-" => Some(KsCfg::NotTablet),
+        "e" => Some(KsCfg::FetchFailed),
+        _ => {
             let (t, v) = cfg.split_once('/')?;
             if v.contains('/') {
                 return None;
@@ -828,26 +838,66 @@ fn parse_cs_schema(s: Option<&str>) -> Option<CsSchema> {
             if t.iter().chain(v.iter()).any(|n| n != "t0" && n != "t1") {
                 return None;
             }
-            Some(CsSchema::Tablet(t, v))
+            Some(KsCfg::Tablet(t, v))
         }
     }
 }
 
+/// `!<k0 cfg>[&<k1 cfg>]`; without `!`: `k0` = `t0+t1/`, `k1` absent
+fn parse_cs_schema(s: Option<&str>) -> Option<[KsCfg; 2]> {
+    match s {
+        None => Some([KsCfg::Tablet(vec!["t0".into(), "t1".into()], vec![]), KsCfg::Absent]),
+        Some(cfg) => {
+            let parts: Vec<&str> = cfg.split('&').collect();
+            match parts.as_slice() {
+                [a] => Some([parse_ks_cfg(a)?, KsCfg::Absent]),
+                [a, b] => Some([parse_ks_cfg(a)?, parse_ks_cfg(b)?]),
+                _ => None,
+            }
+        }
+    }
+}
+
+#[derive(Clone, Copy, Debug, PartialEq, Eq)]
+enum CsMode {
+    /// the host filter rejects every peer (`cs`)
+    Reject,
+    /// it accepts every peer, the nodes are enabled (`csa`)
+    Accept,
+    /// per-peer verdicts; a node is enabled iff it was accepted when built / kept (`csm`)
+    Mixed,
+}
+
+/// table index of the ops: 0, 1 = `k0.t0`, `k0.t1`; 2, 3 = `k1.t0`, `k1.t1`
+fn cs_table(t: usize) -> (&'static str, String) {
+    (CS_KEYSPACES[t / 2], format!("t{}", t % 2))
+}
+
+fn parse_cs_table(s: &str) -> Option<usize> {
+    match s {
+        "0" => Some(0),
+        "1" => Some(1),
+        "2" => Some(2),
+        "3" => Some(3),
+        _ => None,
+    }
+}
+
 struct CsRunner {
-    /// the host filter accepts every peer and the nodes are enabled (`csa` cases)
-    accepting: bool,
+    mode: CsMode,
     cs: Option<ClusterState>,
     peers: Vec<CsPeer>,
-    schema: CsSchema,
+    /// the keyspaces of the current state (after resolution)
+    schema: [KsCfg; 2],
     nodes: HashMap<u32, Option<String>>,
-    tables: [TableShadow; 2],
+    tables: [TableShadow; 4],
     /// is the table in the tablet map (shadow)
-    present: [bool; 2],
+    present: [bool; 4],
 }
 
 impl CsRunner {
     #[allow(clippy::type_complexity)]
-    fn specs(peers: &[CsPeer], schema: &CsSchema) -> (Vec<NodeSpec>, Vec<KeyspaceSpec>, HashMap<String, Vec<String>>, HashMap<String, Vec<String>>) {
+    fn specs(&self, peers: &[CsPeer], schema: &[KsCfg; 2]) -> (Vec<NodeSpec>, Vec<KeyspaceSpec>, HashMap<String, Vec<String>>, HashMap<String, Vec<String>>, Vec<String>) {
         let nodes = peers
             .iter()
             .map(|p| NodeSpec {
@@ -855,50 +905,67 @@ impl CsRunner {
                 datacenter: p.dc.clone(),
                 rack: p.rack.clone(),
                 tokens: vec![p.id as i64 * 1000 + 7],
-                enabled: true,
+                // per-peer verdicts: a node is enabled iff the filter accepts it (what `Node::new` / `new_disabled` make of it)
+                enabled: if self.mode == CsMode::Mixed { p.accepted } else { true },
                 connected: true,
             })
             .collect();
         let mut ks = Vec::new();
         let mut tt = HashMap::new();
         let mut tv = HashMap::new();
-        match schema {
-            CsSchema::Absent | CsSchema::FetchFailed => {}
-            CsSchema::NotTablet => ks.push(KeyspaceSpec { name: "k0".to_owned(), strategy: Strategy::SimpleStrategy { replication_factor: 1 } }),
-            CsSchema::Tablet(t, v) => {
-                ks.push(KeyspaceSpec { name: "k0".to_owned(), strategy: Strategy::SimpleStrategy { replication_factor: 1 } });
-                tt.insert("k0".to_owned(), t.clone());
-                if !v.is_empty() {
-                    tv.insert("k0".to_owned(), v.clone());
+        let mut failed = Vec::new();
+        for (name, cfg) in CS_KEYSPACES.iter().zip(schema.iter()) {
+            let spec = || KeyspaceSpec { name: name.to_string(), strategy: Strategy::SimpleStrategy { replication_factor: 1 } };
+            match cfg {
+                KsCfg::Absent => {}
+                KsCfg::FetchFailed => failed.push(name.to_string()),
+                KsCfg::NotTablet => ks.push(spec()),
+                KsCfg::Tablet(t, v) => {
+                    ks.push(spec());
+                    tt.insert(name.to_string(), t.clone());
+                    if !v.is_empty() {
+                        tv.insert(name.to_string(), v.clone());
+                    }
                 }
             }
         }
-        (nodes, ks, tt, tv)
+        (nodes, ks, tt, tv, failed)
     }
 
-    /// is table `t<t>` in the real tablet map
+    /// is the table in the real tablet map
     fn has_table(&self, t: usize) -> bool {
-        let name = format!("t{}", t);
-        self.cs.as_ref().is_some_and(|cs| cs.verif_tablet_tables().iter().any(|(k, n, _)| k == "k0" && *n == name))
+        let (k, name) = cs_table(t);
+        self.cs.as_ref().is_some_and(|cs| cs.verif_tablet_tables().iter().any(|(kk, n, _)| kk == k && *n == name))
     }
 
-    /// one refresh (`topology_only`: `new_with_updated_topology`, the schema stays); output: node objects kept, table sizes
-    fn refresh(&mut self, peers: Vec<CsPeer>, schema: CsSchema, topology_only: bool, ctx: &mut Ctx) -> String {
-        let (nodes, ks, tt, tv) = Self::specs(&peers, &schema);
-        let failed: Vec<String> = if schema == CsSchema::FetchFailed { vec!["k0".to_owned()] } else { vec![] };
+    /// one refresh (`topology_only`: `new_with_updated_topology`, the schema stays); output: node objects kept, table
+    /// sizes, `~e` / `~E` per keyspace whose fetch failed (an older version reused / none: dropped)
+    fn refresh(&mut self, peers: Vec<CsPeer>, schema: [KsCfg; 2], topology_only: bool, ctx: &mut Ctx) -> String {
+        let (nodes, ks, tt, tv, failed) = self.specs(&peers, &schema);
         // a keyspace whose fetch failed keeps its previous version; without one it is absent until the next refresh
-        let schema = if schema == CsSchema::FetchFailed { self.schema.clone() } else { schema };
-        let accepting = self.accepting;
+        let mut tags = String::new();
+        let mut resolved = schema.clone();
+        for i in 0..2 {
+            if schema[i] == KsCfg::FetchFailed {
+                tags.push_str(if self.schema[i] == KsCfg::Absent { "~E" } else { "~e" });
+                resolved[i] = self.schema[i].clone();
+            }
+        }
+        let schema = resolved;
+        let mode = self.mode;
+        let accepted: Vec<Uuid> = peers.iter().filter(|p| p.accepted).map(|p| uuid_of(p.id)).collect();
         let before: Vec<(u32, Arc<Node>)> = match &self.cs {
             None => vec![],
             Some(cs) => self.peers.iter().filter_map(|p| cs.get_node_by_host_id(uuid_of(p.id)).map(|n| (p.id, Arc::clone(n)))).collect(),
         };
         let new_cs = RT.with(|rt| {
             rt.block_on(async {
-                match &self.cs {
-                    Some(prev) if topology_only && accepting => cluster_refresh_topology_accepting(prev, &nodes).await,
-                    Some(prev) if topology_only => cluster_refresh_topology(prev, &nodes).await,
-                    prev => cluster_state_general(prev.as_ref(), &nodes, &ks, &tt, &tv, &failed, accepting).await,
+                match (&self.cs, mode) {
+                    (Some(prev), CsMode::Mixed) if topology_only => cluster_refresh_topology_filtered(prev, &nodes, &accepted).await,
+                    (Some(prev), CsMode::Accept) if topology_only => cluster_refresh_topology_accepting(prev, &nodes).await,
+                    (Some(prev), CsMode::Reject) if topology_only => cluster_refresh_topology(prev, &nodes).await,
+                    (prev, CsMode::Mixed) => cluster_state_filtered(prev.as_ref(), &nodes, &ks, &tt, &tv, &failed, &accepted).await,
+                    (prev, m) => cluster_state_general(prev.as_ref(), &nodes, &ks, &tt, &tv, &failed, m == CsMode::Accept).await,
                 }
             })
         });
@@ -909,9 +976,9 @@ impl CsRunner {
             .collect();
         kept.sort();
         // the shadow: tables that are no longer tables / views of a tablet keyspace are forgotten, the others exist
-        for t in 0..2 {
-            let name = format!("t{}", t);
-            let keep = matches!(&schema, CsSchema::Tablet(ts, vs) if ts.contains(&name) || vs.contains(&name));
+        for t in 0..4 {
+            let name = format!("t{}", t % 2);
+            let keep = matches!(&schema[t / 2], KsCfg::Tablet(ts, vs) if ts.contains(&name) || vs.contains(&name));
             if !keep {
                 self.tables[t] = TableShadow::default();
             }
@@ -927,23 +994,25 @@ impl CsRunner {
         self.schema = schema;
         self.cs = Some(new_cs);
         let sizes = self.cs.as_ref().unwrap().verif_tablet_tables();
-        let want: Vec<(String, String, usize)> = (0..2)
+        let want: Vec<(String, String, usize)> = (0..4)
             .filter(|t| self.present[*t])
-            .map(|t| ("k0".to_owned(), format!("t{}", t), self.tables[t].entries.iter().filter(|e| e.alive).count()))
+            .map(|t| (cs_table(t).0.to_owned(), cs_table(t).1, self.tables[t].entries.iter().filter(|e| e.alive).count()))
             .collect();
         if sizes != want {
             ctx.fail(format!("after the refresh the tablet map holds {:?}, the tables / views of tablet keyspaces with their still valid tablets are {:?}", sizes, want));
         }
         format!(
-            "{}|{}",
+            "{}|{}{}",
             crate::util::nat_list(&kept),
-            if sizes.is_empty() { "-".to_owned() } else { sizes.iter().map(|(k, t, n)| format!("{}.{}:{}", k, t, n)).collect::<Vec<_>>().join("+") }
+            if sizes.is_empty() { "-".to_owned() } else { sizes.iter().map(|(k, t, n)| format!("{}.{}:{}", k, t, n)).collect::<Vec<_>>().join("+") },
+            tags
         )
     }
 
     fn answer(&self, t: usize, tok: i64, dc: Option<&str>) -> Vec<(u32, u32, bool)> {
         let cs = self.cs.as_ref().unwrap();
-        let spec = TableSpec::owned("k0".to_owned(), format!("t{}", t));
+        let (k, name) = cs_table(t);
+        let spec = TableSpec::owned(k.to_owned(), name);
         let st = Strategy::SimpleStrategy { replication_factor: 1 };
         cs.replica_locator()
             .replicas_for_token(Token::new(tok), &st, dc, &spec)
@@ -984,7 +1053,7 @@ impl CsRunner {
 
     /// every token at or next to an end of any range ever learnt
     fn check_all(&self, ctx: &mut Ctx) {
-        for t in 0..2 {
+        for t in 0..4 {
             if self.present[t] != self.has_table(t) {
                 ctx.fail(format!("table t{} {} in the tablet map", t, if self.present[t] { "should be but is not" } else { "should not be but is" }));
             }
@@ -1038,11 +1107,7 @@ impl CsRunner {
                     if parts.len() != 4 {
                         return None;
                     }
-                    let t: usize = match parts[0] {
-                        "0" => 0,
-                        "1" => 1,
-                        _ => return None,
-                    };
+                    let t: usize = parse_cs_table(parts[0])?;
                     let f: i64 = parts[1].parse().ok()?;
                     let l: i64 = parts[2].parse().ok()?;
                     let reps = parse_reps(parts[3])?;
@@ -1052,7 +1117,7 @@ impl CsRunner {
                     batch.push((t, f, l, reps));
                 }
                 let call: Vec<(String, String, i64, i64, Vec<(Uuid, u32)>)> =
-                    batch.iter().map(|(t, f, l, r)| ("k0".to_owned(), format!("t{}", t), *f, *l, to_uuid_reps(r))).collect();
+                    batch.iter().map(|(t, f, l, r)| (cs_table(*t).0.to_owned(), cs_table(*t).1, *f, *l, to_uuid_reps(r))).collect();
                 self.cs.as_mut().unwrap().verif_update_tablets(&call);
                 // the shadow: tablet by tablet, in the order of the batch (a later tablet wins over an earlier one)
                 for (t, f, l, r) in &batch {
@@ -1067,11 +1132,7 @@ impl CsRunner {
                 if parts.len() != 3 {
                     return None;
                 }
-                let t: usize = match parts[0] {
-                    "0" => 0,
-                    "1" => 1,
-                    _ => return None,
-                };
+                let t: usize = parse_cs_table(parts[0])?;
                 let lo: i64 = parts[1].parse().ok()?;
                 let hi: i64 = parts[2].parse().ok()?;
                 if !(lo <= hi && (hi as i128 - lo as i128) <= 64) {
@@ -1091,11 +1152,7 @@ impl CsRunner {
                     return None;
                 }
                 let (t, tok) = a.split_once(':')?;
-                let t: usize = match t {
-                    "0" => 0,
-                    "1" => 1,
-                    _ => return None,
-                };
+                let t: usize = parse_cs_table(t)?;
                 let tok: i64 = tok.parse().ok()?;
                 if !self.has_table(t) {
                     self.check_all(ctx);
@@ -1126,15 +1183,15 @@ impl CsRunner {
     }
 }
 
-fn run_cs(ops: &str, accepting: bool, ctx: &mut Ctx) -> String {
+fn run_cs(ops: &str, mode: CsMode, ctx: &mut Ctx) -> String {
     let mut r = CsRunner {
-        accepting,
+        mode,
         cs: None,
         peers: vec![],
-        schema: CsSchema::Absent,
+        schema: [KsCfg::Absent, KsCfg::Absent],
         nodes: HashMap::new(),
-        tables: [TableShadow::default(), TableShadow::default()],
-        present: [false, false],
+        tables: [TableShadow::default(), TableShadow::default(), TableShadow::default(), TableShadow::default()],
+        present: [false; 4],
     };
     let mut outs = Vec::new();
     for op in ops.split(';').filter(|o| !o.is_empty()) {
@@ -1150,8 +1207,9 @@ pub fn run(case: &str, ctx: &mut Ctx) -> String {
     let w: Vec<&str> = case.split_whitespace().collect();
     match w.as_slice() {
         ["tab", ops] => run_tab(ops, ctx),
-        ["cs", ops] => run_cs(ops, false, ctx),
-        ["csa", ops] => run_cs(ops, true, ctx),
+        ["cs", ops] => run_cs(ops, CsMode::Reject, ctx),
+        ["csa", ops] => run_cs(ops, CsMode::Accept, ctx),
+        ["csm", ops] => run_cs(ops, CsMode::Mixed, ctx),
         ["payload", arg] => run_payload(arg, ctx),
         ["exh", alpha, depth, pre] => run_exh(alpha, depth, pre, ctx),
         _ => "bad-case".to_owned(),
@@ -1460,10 +1518,13 @@ fn gen_payload(rng: &mut Rng) -> String {
 fn fmt_cs_peers(peers: &[CsPeer]) -> String {
     peers
         .iter()
-        .map(|p| match (&p.dc, &p.rack) {
-            (None, _) => format!("{}", p.id),
-            (Some(d), None) => format!("{}@{}", p.id, d),
-            (Some(d), Some(r)) => format!("{}@{}/{}", p.id, d, r),
+        .map(|p| {
+            let base = match (&p.dc, &p.rack) {
+                (None, _) => format!("{}", p.id),
+                (Some(d), None) => format!("{}@{}", p.id, d),
+                (Some(d), Some(r)) => format!("{}@{}/{}", p.id, d, r),
+            };
+            if p.accepted { format!("{}*", base) } else { base }
         })
         .collect::<Vec<_>>()
         .join(",")
@@ -1476,7 +1537,7 @@ fn fresh_cs_peer(rng: &mut Rng, peers: &[CsPeer], max_id: u32) -> Option<CsPeer>
     }
     let dc = if rng.chance(1, 12) { None } else { Some(rng.pick(&DCS).to_string()) };
     let rack = if dc.is_some() && rng.bool() { Some(format!("r{}", rng.below(2))) } else { None };
-    Some(CsPeer { id: *rng.pick(&free), dc, rack })
+    Some(CsPeer { id: *rng.pick(&free), dc, rack, accepted: false })
 }
 
 /// one metadata refresh: removals, additions, replacement in ONE refresh (remove k, add >= k), same-size swaps,
@@ -1563,7 +1624,30 @@ fn gen_refresh(rng: &mut Rng, peers: &mut Vec<CsPeer>, max_id: u32) {
     }
 }
 
+/// one keyspace's schema config of a `P` op
+fn gen_ks_cfg(rng: &mut Rng) -> &'static str {
+    *rng.pick(&["x", "-", "e", "e", "e", "t0/", "t1/", "/", "t0/t1", "t1/t0", "/t0+t1", "t0+t1/", "t0+t1/"])
+}
+
+/// `csm`: the host filter's verdict on every peer, drawn anew at every refresh (mostly stable, so that nodes are
+/// reused; sometimes flipped, so that an enabled node meets a rejecting filter and a disabled one an accepting filter)
+fn redraw_verdicts(rng: &mut Rng, peers: &mut [CsPeer], mixed: bool, first: bool) {
+    if !mixed {
+        return;
+    }
+    for p in peers.iter_mut() {
+        if first || rng.chance(1, 4) {
+            p.accepted = rng.bool();
+        }
+    }
+}
+
 fn cs_history(rng: &mut Rng, len: usize) -> String {
+    let kind = *rng.pick(&["cs", "csa", "csm"]);
+    let mixed = kind == "csm";
+    // one or two keyspaces in play
+    let two = rng.bool();
+    let ntables: u64 = if two { 4 } else { 2 };
     let max_id = 6 + rng.below(5) as u32;
     let mut peers: Vec<CsPeer> = Vec::new();
     for _ in 0..2 + rng.below(4) {
@@ -1571,7 +1655,12 @@ fn cs_history(rng: &mut Rng, len: usize) -> String {
             peers.push(p);
         }
     }
-    let mut ops = vec![format!("P{}", fmt_cs_peers(&peers))];
+    redraw_verdicts(rng, &mut peers, mixed, true);
+    let mut ops = vec![if two {
+        format!("P{}!{}&{}", fmt_cs_peers(&peers), *rng.pick(&["t0+t1/", "t0+t1/", "t0/t1", "e", "-"]), *rng.pick(&["t0+t1/", "t0/", "-", "e"]))
+    } else {
+        format!("P{}", fmt_cs_peers(&peers))
+    }];
     // token universe: small (every relation often) or the i64 boundary pool
     let pool: Option<Vec<i64>> = if rng.chance(1, 3) { Some(token_pool(rng)) } else { None };
     let universe = 12 + rng.below(12) as i64;
@@ -1608,7 +1697,7 @@ fn cs_history(rng: &mut Rng, len: usize) -> String {
                         format!("{}.{}", id, rng.below(3))
                     })
                     .collect();
-                ops.push(format!("L{}:{}:{}:{}", rng.below(2), a, b, reps.join(",")));
+                ops.push(format!("L{}:{}:{}:{}", rng.below(ntables), a, b, reps.join(",")));
             }
             33..=56 => {
                 // one `update_tablets` call with 1..=8 tablets: the same range again with other replicas (the tablet
@@ -1627,12 +1716,12 @@ fn cs_history(rng: &mut Rng, len: usize) -> String {
                                 let a = rng.range(prev.1, prev.2);
                                 (prev.0, a, if pool.is_some() { a.saturating_add(rng.range(0, 4)) } else { (a + rng.range(0, 4)).min(universe) })
                             }
-                            // the same range in the other table
-                            _ => (1 - prev.0, prev.1, prev.2),
+                            // the same range in another table
+                            _ => ((prev.0 + 1 + rng.below(ntables - 1)) % ntables, prev.1, prev.2),
                         }
                     } else {
                         let (a, b) = pick_range(rng);
-                        (rng.below(2), a, b)
+                        (rng.below(ntables), a, b)
                     };
                     last_range = (a, b);
                     items.push((t, a, b));
@@ -1652,29 +1741,40 @@ fn cs_history(rng: &mut Rng, len: usize) -> String {
                 }
                 ops.push(format!("B{}", out.join("|")));
                 if rng.chance(1, 2) {
-                    let t = rng.below(2);
+                    let t = rng.below(ntables);
                     ops.push(scan_op(rng, t, last_range));
                 }
             }
             57..=69 => {
                 gen_refresh(rng, &mut peers, max_id);
+                redraw_verdicts(rng, &mut peers, mixed, false);
                 match rng.below(10) {
                     // `new_with_updated_topology`: peers only
                     0 | 1 => ops.push(format!("N{}", fmt_cs_peers(&peers))),
-                    // the schema changes: keyspace dropped / no longer tablet-based / a table dropped / a table becomes a view
-                    2 | 3 | 4 => {
-                        let cfg = *rng.pick(&["x", "-", "e", "e", "e", "t0/", "t1/", "/", "t0/t1", "t1/t0", "/t0+t1", "t0+t1/"]);
-                        ops.push(format!("P{}!{}", fmt_cs_peers(&peers), cfg));
+                    // the schema changes: keyspace dropped / no longer tablet-based / its fetch fails / a table dropped /
+                    // a table becomes a view - independently for the two keyspaces
+                    2 | 3 | 4 | 5 => {
+                        if two {
+                            ops.push(format!("P{}!{}&{}", fmt_cs_peers(&peers), gen_ks_cfg(rng), gen_ks_cfg(rng)));
+                        } else {
+                            ops.push(format!("P{}!{}", fmt_cs_peers(&peers), gen_ks_cfg(rng)));
+                        }
                     }
-                    _ => ops.push(format!("P{}", fmt_cs_peers(&peers))),
+                    _ => {
+                        if two {
+                            ops.push(format!("P{}!t0+t1/&t0+t1/", fmt_cs_peers(&peers)));
+                        } else {
+                            ops.push(format!("P{}", fmt_cs_peers(&peers)));
+                        }
+                    }
                 }
                 if rng.chance(2, 3) {
-                    let t = rng.below(2);
+                    let t = rng.below(ntables);
                     ops.push(scan_op(rng, t, last_range));
                 }
             }
             70..=84 => {
-                let t = rng.below(2);
+                let t = rng.below(ntables);
                 ops.push(scan_op(rng, t, last_range));
             }
             _ => {
@@ -1682,7 +1782,7 @@ fn cs_history(rng: &mut Rng, len: usize) -> String {
                     Some(p) => if rng.bool() { last_range.0 } else { *rng.pick(p) },
                     None => rng.range(0, universe),
                 };
-                ops.push(format!("d{}:{}@{}", rng.below(2), tok, rng.pick(&DCS)));
+                ops.push(format!("d{}:{}@{}", rng.below(ntables), tok, rng.pick(&DCS)));
             }
         }
     }
@@ -1690,7 +1790,11 @@ fn cs_history(rng: &mut Rng, len: usize) -> String {
     ops.push(scan_op(rng, 1, last_range));
     // half of the histories with an accepting host filter and enabled nodes (the accepted-node arms of
     // calculate_new_topology: reuse, inherit_with_ip_changed, Node::new)
-    format!("{} {}", if rng.bool() { "cs" } else { "csa" }, ops.join(";"))
+    if two {
+        ops.push(scan_op(rng, 2, last_range));
+        ops.push(scan_op(rng, 3, last_range));
+    }
+    format!("{} {}", kind, ops.join(";"))
 }
 
 pub fn generate(rng: &mut Rng, tier: Tier, emit: &mut dyn FnMut(String)) {
